@@ -398,6 +398,19 @@ static void fresh(void)
     seqno = 0;
     last_auto = 0;
     memset(&hh, 0, sizeof hh);
+    if (vx_opt_int("reuse", 1)) {
+        /* an earlier life of the same object with another size and ordering: grown, partly emptied, cleared, terminated */
+        cmi_hashheap_initialize(&hh, 1, NULL);
+        uint64_t ks[9];
+        for (int k = 0; k < 9; k++) {
+            ks[k] = cmi_hashheap_enqueue(&hh, (void *)(uintptr_t)(0x900 + k), NULL, NULL, NULL, 0, (double)((k * 5) % 7), (int64_t)k);
+        }
+        (void)cmi_hashheap_remove(&hh, ks[3]);
+        (void)cmi_hashheap_dequeue(&hh);
+        cmi_hashheap_clear(&hh);
+        (void)cmi_hashheap_enqueue(&hh, (void *)(uintptr_t)0x999, NULL, NULL, NULL, 0, 1.0, 1);
+        cmi_hashheap_terminate(&hh);
+    }
     cmi_hashheap_initialize(&hh, (uint16_t)o_exp, cmp);
     opname = "init";
 }
